@@ -4,7 +4,7 @@ import json, sys
 pid, n = sys.argv[1], sys.argv[2]
 p = next(json.loads(l) for l in open('/verif/properties.jsonl') if json.loads(l)['id'] == pid)
 wt = "/tmp/mut_%s_%s" % (pid.lower(), n)
-print(f"""You are testing how robust a C++ library's guarantees are against subtle regressions. The library is lisitsyn/tapkee (header-only C++ dimensionality reduction library on Eigen). Create your own scratch git worktree of it and work ONLY there: `git -C /repo worktree add {wt} HEAD` (never edit /repo itself, never look at or touch /verif). Build flags that work: `g++ -std=gnu++23 -fopenmp -DFMT_HEADER_ONLY=1 -DTAPKEE_USE_LGPL_COVERTREE -I{wt}/include -isystem /root/miniconda/include -isystem /usr/include/eigen3 -O1 prog.cpp -o prog` (add -DTAPKEE_USE_FIBONACCI_HEAP to select the Fibonacci-heap Dijkstra). The unit tests live in {wt}/test/unit (gtest under /root/miniconda; configure with `cmake -S {wt} -B {wt}/_build -G Ninja -DBUILD_TESTS=ON -DCMAKE_BUILD_TYPE=RelWithDebInfo -DCMAKE_PREFIX_PATH=/root/miniconda -DCMAKE_CXX_FLAGS=-Wno-error`, build with `cmake --build {wt}/_build`, run `ctest --test-dir {wt}/_build -j8`; binaries land in {wt}/bin).
+print(f"""You are testing how robust a C++ library's guarantees are against subtle regressions. The library is lisitsyn/tapkee (header-only C++ dimensionality reduction library on Eigen). Create your own scratch git worktree of it and work ONLY there: `git -C /repo worktree add {wt} HEAD` (never edit /repo itself, never look at or touch /verif). Build flags that work: `g++ -std=gnu++23 -fopenmp -DFMT_HEADER_ONLY=1 -DTAPKEE_USE_LGPL_COVERTREE -I{wt}/include -isystem /root/miniconda/include -isystem /usr/include/eigen3 -O1 prog.cpp -o prog` (add -DTAPKEE_USE_FIBONACCI_HEAP to select the Fibonacci-heap Dijkstra). The unit tests live in {wt}/test/unit (gtest under /root/miniconda; configure with `cmake -S {wt} -B {wt}/_build -G Ninja -DBUILD_TESTS=ON -DCMAKE_BUILD_TYPE=RelWithDebInfo -DCMAKE_PREFIX_PATH=/root/miniconda -DCMAKE_CXX_FLAGS=-Wno-error`, build with `cmake --build {wt}/_build -j4` (shared machine: at most -j4), run `ctest --test-dir {wt}/_build -j8`; binaries land in {wt}/bin).
 
 The property (a guarantee users rely on):
   id: {p['id']} — {p['title']}
@@ -13,4 +13,4 @@ The property (a guarantee users rely on):
   code it is anchored in: {', '.join(p['anchors']['files'])}
 
 YOUR TASK: produce ONE realistic change to the library source (the kind of regression a well-meaning refactoring, optimisation or "cleanup" could introduce; a few lines; in the anchored files or code they call) that BREAKS this property while the library still compiles and ALL existing unit tests still pass. It must need something specific to manifest — an unusual input, a particular multi-step sequence of operations, a boundary size, ties/duplicates, a particular configuration or two cooperating sites that each look fine alone — NOT something ordinary use would expose at once. Prefer a mechanism different from an obvious one-token comparison flip if you can find one. Variant number {n}: if n > 1 pick a different mechanism / different function than the most obvious one.
-Deliver in {wt}/MUTANT/: (1) patch.diff (`git -C {wt} diff` of the source change only), (2) demo.cpp (or demo.sh) — a small self-contained program using the library that exits 0 / prints PASS on the ORIGINAL source and exits non-zero / prints FAIL with your change, demonstrating the property violation (state in a comment what specific condition it needs), (3) meta.json with keys: property, summary, mechanism, needs_to_manifest, files_changed, demo_build_cmd, demo_passes_on_original (true/false as you verified), demo_fails_on_mutant (verified), unit_tests_pass_on_mutant (verified: you must actually build and run the unit tests with the change). Verify all three claims yourself. Do not remove the worktree (the coordinator will). Final answer: the path {wt}/MUTANT and a 5-line summary.""")
+Deliver in {wt}/MUTANT/: (1) patch.diff (`git -C {wt} diff` of the source change only), (2) demo.cpp (or demo.sh) — a small self-contained program using the library that exits 0 / prints PASS on the ORIGINAL source and exits non-zero / prints FAIL with your change, demonstrating the property violation (state in a comment what specific condition it needs), (3) meta.json with keys: property, summary, mechanism, needs_to_manifest, files_changed, demo_build_cmd, demo_passes_on_original (true/false as you verified), demo_fails_on_mutant (verified), unit_tests_pass_on_mutant (verified: you must actually build and run the unit tests with the change). Verify all three claims yourself. Do not remove the worktree (the coordinator will), but delete {wt}/_build when you are done with it. Final answer: the path {wt}/MUTANT and a 5-line summary.""")
